@@ -248,6 +248,24 @@ def run_case(sim, seed, i):
                                      "faults": [fault], "mapseed": ms, "seed": seed, "case": desc, "location": "read_fault"})
         if v:
             viols.append(v)
+    # (c) write faults on the valid package, generated into empty output directories: an error while writing is an error
+    # too - the exit status must say so (that nothing was modified cannot be asked of a run that fails half-way through)
+    wops = [o for o in mutations_under(good["ops"], outs) if o["op"] in ("write", "mkdirall", "mkdir", "rename", "chmod", "symlink")]   # (not "open": the first open of an output file is the read that decides whether it needs writing, and failing to read it is legitimately absorbed)
+    for j in range(2 if wops else 0):
+        fr = rng.fork("wfault", j)
+        o = fr.choice(wops)
+        fault = {"op": o["op"], "path": o["path"].split(" -> ")[-1], "exact": True, "nth": 1, "errno": fr.choice(["ENOSPC", "EIO", "EACCES"])}
+        res = sim.run(tw.oneshot_spec(valid_files, "/w/pkg", faults=[fault]), mapseed=ms)
+        stats["runs"] += 1
+        fired = any(f.get("fired") for f in (res.get("faults") or []))
+        if not fired or res.get("status") == "process_died":
+            continue
+        stats["write_faults_fired"] = stats.get("write_faults_fired", 0) + 1
+        if res.get("exit_code") == 0 and res.get("status") == "returned":
+            fp = fault["path"]
+            viols.append(({"class": "write_error_not_reported", "op": fault["op"], "target": next((t for t in ("matlab", "python", "cpp", "json") if t in fp), "?")},
+                          {"mode": "wfault", "files": valid_files, "pre_files": {}, "pre_dirs": [], "outs": outs, "faults": [fault], "mapseed": ms, "seed": seed, "case": desc,
+                           "failed_op": "%s %s" % (fault["op"], fp)}))
     return stats, viols
 
 
@@ -279,6 +297,9 @@ def replay(sim, doc):
         return False, "process died: " + res.get("stderr_tail", "")[-300:]
     failed = res["exit_code"] != 0 or res["status"] != "returned"
     muts = mutations_under(res["ops"], doc["outs"])
+    if doc["violation"]["class"] == "write_error_not_reported":
+        fired = any(f.get("fired") for f in (res.get("faults") or []))
+        return (fired and not failed), "exit=%s fault_fired=%s" % (res["exit_code"], fired)
     if doc["violation"]["class"] == "error_reported_but_output_written":
         said = any(l.lstrip().startswith(("\x1b[31mERR", "ERR ", "\x1b[31mFTL", "FTL ", "\x1b[31mPNC", "PNC ")) for l in (res.get("stderr") or "").split("\n"))
         return (said and not failed and bool(muts)), "exit=%s mutations=%d error_reported=%s" % (res["exit_code"], len(muts), said)
@@ -335,7 +356,7 @@ def main():
     budget = check.budget(60, 1500)
     max_cases = 400 if quick else 1000000
     totals = {"runs": 0, "generator_rejected": 0, "invalid_cases": 0, "faults_fired": 0, "fault_absorbed": 0, "fault_reported": 0,
-              "fault_before_first_write": 0, "prepopulated": 0, "process_died": 0}
+              "fault_before_first_write": 0, "prepopulated": 0, "process_died": 0, "write_faults_fired": 0}
     matrix = {}
     i = 0
     while i < max_cases and check.elapsed() < budget:
@@ -349,7 +370,7 @@ def main():
                 for rec, doc in viols:          # (it failed on the package as generated and wrote all the same)
                     check.report(rec, doc)
                 continue
-            for k in ("faults_fired", "fault_absorbed", "fault_reported", "fault_before_first_write"):
+            for k in ("faults_fired", "fault_absorbed", "fault_reported", "fault_before_first_write", "write_faults_fired"):
                 totals[k] += stats.get(k, 0)
             totals["process_died"] += stats.get("died", 0)
             totals["prepopulated"] += 1 if d.get("prepopulated") else 0
@@ -388,11 +409,12 @@ def main():
         "invalidation_matrix": matrix,
         "fault_kinds": {"read_fault_fired(EIO/EACCES/ENOENT on open/read/stat/lstat/readdir)": totals["faults_fired"],
                         "watch_mode_regenerations_started_while_the_package_was_invalid_for_good": totals["watch_regenerations_started_while_invalid"],
+                        "write_fault_fired(ENOSPC/EIO/EACCES on write/mkdirall/rename/chmod below an output directory)": totals["write_faults_fired"],
                         "reported_by_yardl": totals["fault_reported"], "absorbed_by_yardl(not judged)": totals["fault_absorbed"]},
         "real_code": "all of tooling/** compiled from the working tree; cobra root command entry point",
         "stubbed": "os, path/filepath, os/exec, fsnotify (simulated OS)",
     }
-    check.assumptions += ["write-side faults are not injected: the property is about validation errors",
+    check.assumptions += ["for write-side faults only the exit status is judged",
                           "a read fault yardl absorbs (exit 0) is counted, not judged"]
     check.finish()
 
